@@ -854,6 +854,8 @@ def _split_first_list(S):
     if (info.get("over") or "").strip() not in (tail, tail + ".iter()"):
         return None
     binds = [n["name"] for n in walk(info.get("pat") or {}) if n.get("k") == "bind"]
+    if not binds and info.get("kind") == "for_each":
+        binds = [n["name"] for p_ in info.get("params") or [] for n in walk(p_.get("pat") or {}) if n.get("k") == "bind"]
     if len(binds) != 1:
         return None
     litems = [x for x in T.flat(items[-1][1]) if x != ("seq", [])]
@@ -865,7 +867,11 @@ def _split_first_list(S):
     first = re.sub(r"\b%s\b" % re.escape(head), "@", T.show(("seq", items[:-1])))
     rest = re.sub(r"\b%s\b" % re.escape(binds[0]), "@", T.show(("seq", litems[nsep:])))
     if first != rest:
-        return None
+        # both written through one local closure (`write(head, sql); rest.iter().for_each(|x| { SEP; write(x, sql) })`): the
+        # element then carries the closure's parameter name on both sides
+        both = lambda txt: re.sub(r"\b(%s|%s)\b" % (re.escape(head), re.escape(binds[0])), "@", txt)
+        if both(T.show(("seq", items[:-1]))) != both(T.show(("seq", litems[nsep:]))):
+            return None
     recv = init.get("recv")
     return ("seq", litems[nsep:]), ("seq", litems[:nsep]), {"kind": "split_first", "over": T.text(recv) if isinstance(recv, dict) else "", "e": recv, "sp": e.get("sp")}
 
